@@ -130,8 +130,13 @@ def case_halo(case):
             jobs.append((round((i + px) * dx, 9), round((j + py) * dy, 9), repr(h), h, (j, i)))
     jobs.sort(key=lambda t: t[:3])
     pre = {}
-    for _, _, _, h, m in jobs:
-        pre[(repr(h), m)] = _footprint_for(case, h, m)
+    try:
+        for _, _, _, h, m in jobs:
+            pre[(repr(h), m)] = _footprint_for(case, h, m)
+        for m in itertools.product(range(ny), range(nx)):
+            _tower(m, dx, dy)  # final check of every tower row
+    except _ArgumentModified as e:
+        return {"v": [{"sub": "argument-modified", "sig": "argument-modified/meas_pt", "msg": "%s; config %s" % (e, core.canon(case))}], "nt": True, "n": len(pre)}
     for h in case["halos"]:
         r = _halo_one(dict(case, halo=h), {m: pre[(repr(h), m)] for m in itertools.product(range(ny), range(nx))})
         out["v"] += r["v"]
@@ -141,11 +146,24 @@ def case_halo(case):
     return {"v": out["v"][:6], "nt": True, "n": out["n"], "obs": {"worst_rel_err": out["worst"], "towers": out["towers"], "halos": case["halos"]}}
 
 
+_TOWER_ROWS = {}
+
+
 def _tower(m, dx, dy):
     x, y = m[1] * dx, m[0] * dy
     if (m[0] + m[1]) % 2 == 0 and float(x).is_integer() and float(y).is_integer():
         return (int(x), int(y))  # whole-metre coordinates written as integers
+    if (m[0] + 2 * m[1]) % 3 == 0:
+        # a row of the caller's tower table: one float64 array object per tower, reused for every call with that tower
+        row = _TOWER_ROWS.setdefault((x, y), np.array([x, y], dtype=float))
+        if row[0] != x or row[1] != y:
+            raise _ArgumentModified("the solver changed the caller's meas_pt array from (%r, %r) to (%r, %r)" % (x, y, row[0], row[1]))
+        return row
     return (x, y)
+
+
+class _ArgumentModified(Exception):
+    pass
 
 
 def _footprint_for(case, halo, m):
